@@ -61,13 +61,39 @@ class VExc(Exception):
 
 
 class VSlots:
-    __slots__ = ('n',)
+    """The 'hostile' kind of the model: a value whose attributes cannot be read at all (reading its attribute dictionary
+    fails, it declares no slots of its own to look into). Recorded with its type and text, no children."""
+    __slots__ = ('__dict__',)
 
     def __init__(self, n):
-        self.n = n
+        object.__setattr__(self, 'n', n)
+
+    def __getattribute__(self, name):
+        if name == '__dict__':
+            raise RuntimeError('the attributes of this value cannot be read')
+        return object.__getattribute__(self, name)
 
     def __str__(self):
         return 'VSlots#%d' % self.n
+
+
+class VObjS:
+    """A user object whose class declares __slots__ (no attribute dictionary): an object like any other - its attributes
+    are its children. Slots that were never assigned are simply not there."""
+    __slots__ = ('a0', '_VObjective1', 'a2', '_VObjective3', 'a4', '__weakref__')
+
+    def __init__(self, n):
+        pass
+
+    def __str__(self):
+        if STR_HOOK is not None:
+            STR_HOOK()
+        return 'VObjS'
+
+    def __eq__(self, other):
+        return self._verif_key == other._verif_key
+
+    __hash__ = object.__hash__
 
 
 TOUCHED = []     # methods of application containers that were run while the agent looked at them
@@ -189,7 +215,7 @@ def build(inst):
         elif k == 'dict':
             b.objs[n] = new_dict(n)
         elif k == 'obj':
-            b.objs[n] = VObj(n)
+            b.objs[n] = VObj(n) if n % 3 else VObjS(n)
         elif k == 'proxy':
             b.objs[n] = VProxy(n)
         elif k == 'sobj':
